@@ -154,47 +154,61 @@ def battrParse (rec : Rec) (env : Env) (attrs : Str) : M Bool := do
         modify fun s => { s with opts := o }
       return true
 
-/-- `blockattributes.injectHtmlAttributes(tag, consume)` -/
-def injectHtmlAttributes (tag : Str) (consume : Bool := true) : M Str := do
-  if tag == [] then return tag
-  let mut result := tag
-  let mut attrs : Str := []
-  let s0 ← get
-  if s0.classes != [] then
-    match Gen.P.blockattributes_injectHtmlAttributes_0.search result with
-    | some mt =>
+/-- class names: injected into an existing `class="…"` of the first tag, else a new attribute.
+    Returns the tag text and the attribute text so far. -/
+def injectClasses (classes tag : Str) : M (Str × Str) :=
+  if classes == [] then pure (tag, [])
+  else match Gen.P.blockattributes_injectHtmlAttributes_0.search tag with
+    | some mt => do
       let g1 ← mt.str 1
       let g2 ← mt.str 2
-      result := replaceFirst result mt.whole (g1 ++ s0.classes ++ " ".toList ++ g2 ++ "\"".toList)
-    | none => attrs := "class=\"".toList ++ s0.classes ++ "\"".toList
-  if s0.id != [] then
-    let id := lower s0.id
+      pure (replaceFirst tag mt.whole (g1 ++ classes ++ " ".toList ++ g2 ++ "\"".toList), [])
+    | none => pure (tag, "class=\"".toList ++ classes ++ "\"".toList)
+
+/-- id: lower-cased (also in the module global), checked against the ids in use, reported or registered. -/
+def injectId (sid : Str) (ids : List Str) (result attrs : Str) : M Str :=
+  if sid == [] then pure attrs
+  else do
+    let id := lower sid
     modify fun s => { s with id := id }
     let hasId := (Gen.P.blockattributes_injectHtmlAttributes_1.search result).isSome
-    if hasId || s0.ids.contains id then
+    if hasId || ids.contains id then
       errorCallback ("duplicate 'id' attribute: ".toList ++ id)
     else
       modify fun s => { s with ids := id :: s.ids }
-    if !hasId then
-      attrs := attrs ++ " id=\"".toList ++ id ++ "\"".toList
-  if s0.css != [] then
-    match Gen.P.blockattributes_injectHtmlAttributes_2.search result with
-    | some mt =>
+    pure (if !hasId then attrs ++ " id=\"".toList ++ id ++ "\"".toList else attrs)
+
+/-- css: injected into an existing `style="…"` of the first tag, else a new attribute. -/
+def injectCss (css result attrs : Str) : M (Str × Str) :=
+  if css == [] then pure (result, attrs)
+  else match Gen.P.blockattributes_injectHtmlAttributes_2.search result with
+    | some mt => do
       let g1 ← mt.str 1
       let g2 ← mt.str 2
       let group2 := strip g2
       let group2 := if !endsWith group2 ";".toList then group2 ++ ";".toList else group2
-      result := replaceFirst result mt.whole (g1 ++ group2 ++ " ".toList ++ s0.css ++ "\"".toList)
-    | none => attrs := attrs ++ " style=\"".toList ++ s0.css ++ "\"".toList
-  if s0.attributes != [] then
-    attrs := attrs ++ " ".toList ++ s0.attributes
-  attrs := strip attrs
-  if attrs != [] then
-    match Gen.P.blockattributes_injectHtmlAttributes_3.search result with
+      pure (replaceFirst result mt.whole (g1 ++ group2 ++ " ".toList ++ css ++ "\"".toList), attrs)
+    | none => pure (result, attrs ++ " style=\"".toList ++ css ++ "\"".toList)
+
+/-- the accumulated attribute text goes after the tag name of the first tag -/
+def injectAttrs (result attrs : Str) : Str :=
+  let attrs := strip attrs
+  if attrs == [] then result
+  else match Gen.P.blockattributes_injectHtmlAttributes_3.search result with
     | some mt =>
       let n := mt.whole.length
-      result := result.take n ++ " ".toList ++ attrs ++ result.drop n
-    | none => pure ()
+      result.take n ++ " ".toList ++ attrs ++ result.drop n
+    | none => result
+
+/-- `blockattributes.injectHtmlAttributes(tag, consume)` -/
+def injectHtmlAttributes (tag : Str) (consume : Bool := true) : M Str := do
+  if tag == [] then return tag
+  let s0 ← get
+  let (result, attrs) ← injectClasses s0.classes tag
+  let attrs ← injectId s0.id s0.ids result attrs
+  let (result, attrs) ← injectCss s0.css result attrs
+  let attrs := if s0.attributes != [] then attrs ++ " ".toList ++ s0.attributes else attrs
+  let result := injectAttrs result attrs
   if consume then
     modify fun s => { s with classes := [], id := [], css := [], attributes := [] }
   return result
@@ -508,33 +522,32 @@ def renderBlock (rec : Rec) (env : Env) (d : BlockDef) (mt : Match) (reader : Re
   let reader := reader.next
   let lines := lines0 ++ content
   let expand := d.expand.merge (← get).opts
-  let mut writer := writer
-  if expand.skip != some true then
-    let text0 := join "\n".toList lines
-    let text1 ← match d.contentFilter with
-      | .none => pure text0
-      | .macroDef => macroDefContentFilter rec env text0 mt expand
-      | .indented => indentedContentFilter text0
-      | .quoteParagraph => pure (quoteParagraphContentFilter text0)
-    let isHtml := d.name == "html".toList
-    let text2 ← if isHtml then injectHtmlAttributes text1 else pure text1
-    let opentag0 ← if isHtml then pure d.openTag else injectHtmlAttributes d.openTag
-    let text3 ← if expand.container == some true then do
-        modify fun s => { s with opts := { s.opts with container := none } }
-        rec.document text2
-      else do
-        let t ← replaceInline rec env text2 expand
-        if isHtml then htmlSafeModeFilter t else pure t
-    -- `d.closeTag` is read after the nested render, from the live definition object
-    let closeTag0 := match blockGetDefinition (← get).blockDefs d.name with
-      | some d' => d'.closeTag
-      | none => d.closeTag
-    let dropDiv := d.name == "division".toList && opentag0 == "<div>".toList
-    let opentag := if dropDiv then [] else opentag0
-    let closetag := if dropDiv then [] else closeTag0
-    writer := ((writer.write opentag).write text3).write closetag
-    if !reader.eof && (opentag ++ text3 ++ closetag) != [] then
-      writer := writer.write "\n".toList
+  let writer ← if expand.skip != some true then do
+      let text0 := join "\n".toList lines
+      let text1 ← match d.contentFilter with
+        | .none => pure text0
+        | .macroDef => macroDefContentFilter rec env text0 mt expand
+        | .indented => indentedContentFilter text0
+        | .quoteParagraph => pure (quoteParagraphContentFilter text0)
+      let isHtml := d.name == "html".toList
+      let text2 ← if isHtml then injectHtmlAttributes text1 else pure text1
+      let opentag0 ← if isHtml then pure d.openTag else injectHtmlAttributes d.openTag
+      let text3 ← if expand.container == some true then do
+          modify fun s => { s with opts := { s.opts with container := none } }
+          rec.document text2
+        else do
+          let t ← replaceInline rec env text2 expand
+          if isHtml then htmlSafeModeFilter t else pure t
+      -- `d.closeTag` is read after the nested render, from the live definition object
+      let closeTag0 := match blockGetDefinition (← get).blockDefs d.name with
+        | some d' => d'.closeTag
+        | none => d.closeTag
+      let dropDiv := d.name == "division".toList && opentag0 == "<div>".toList
+      let opentag := if dropDiv then [] else opentag0
+      let closetag := if dropDiv then [] else closeTag0
+      let w := ((writer.write opentag).write text3).write closetag
+      pure (if !reader.eof && (opentag ++ text3 ++ closetag) != [] then w.write "\n".toList else w)
+    else pure writer
   modify fun s => { s with opts := {} }
   return (reader, writer)
 
@@ -657,15 +670,14 @@ def renderListItem (rec : Rec) (env : Env) : Nat → ItemInfo → Reader → Wri
   | fuel+1, item, reader, writer => do
     let d := item.listdef
     let mt := item.mt
-    let mut writer := writer
-    if d.termOpenTag != [] then
-      let t ← injectHtmlAttributes d.termOpenTag false
-      writer := writer.write t
-      modify fun s => { s with id := [] }
-      let text ← replaceInline rec env (← mt.str 1) { macros := some true, spans := some true }
-      writer := (writer.write text).write d.termCloseTag
+    let writer ← if d.termOpenTag != [] then do
+        let t ← injectHtmlAttributes d.termOpenTag false
+        modify fun s => { s with id := [] }
+        let text ← replaceInline rec env (← mt.str 1) { macros := some true, spans := some true }
+        pure (((writer.write t).write text).write d.termCloseTag)
+      else pure writer
     let t ← injectHtmlAttributes d.itemOpenTag
-    writer := writer.write t
+    let writer := writer.write t
     let text ← mt.str mt.ngroups
     let itemLines : Writer := ({} : Writer).write (text ++ "\n".toList)
     let reader := reader.next
@@ -673,10 +685,7 @@ def renderListItem (rec : Rec) (env : Env) : Nat → ItemInfo → Reader → Wri
       renderItemLoop rec env fuel reader itemLines {} false
     let text := strip itemLines.toStr
     let text ← replaceInline rec env text { macros := some true, spans := some true }
-    writer := writer.write text
-    writer := writer.extend attachedLines
-    writer := writer.write d.itemCloseTag
-    return (nextItem, reader, writer)
+    return (nextItem, reader, ((writer.write text).extend attachedLines).write d.itemCloseTag)
 
 /-- the `while True` of `renderListItem`; returns next item, reader, item lines, attached lines -/
 def renderItemLoop (rec : Rec) (env : Env) : Nat → Reader → Writer → Writer → Bool →
